@@ -282,11 +282,12 @@ func checkC12SSA(r *Run) {
 			continue
 		}
 		for i, v := range vals {
-			app := apps[i]
+			appOnPath := apps[i]
+			how, expected := cm.justify(p, v, appOnPath)
+			app := origCall(appOnPath)
 			if sites[app] == nil {
 				sites[app] = map[string]*siteVerdict{}
 			}
-			how, expected := cm.justify(p, v, app)
 			// what kind of value is it?
 			desc := "evaluated argument"
 			fromEval := false
@@ -349,7 +350,7 @@ func checkC12SSA(r *Run) {
 			if fromEval {
 				argSites[app] = true
 			} else {
-				supplied = append(supplied, suppliedVal{app, missingArgsDecided(p, app), isZero, hasNilArgDecision(p, cm)})
+				supplied = append(supplied, suppliedVal{app, missingArgsDecided(p, appOnPath), isZero, hasNilArgDecision(p, cm)})
 			}
 			// the helper context
 			if va, isVO := reflectFunc(v, "ValueOf"); isVO && len(va) == 1 {
@@ -928,9 +929,10 @@ func c12EvaluationsSSA(r *Run) {
 			if !isArgs || p.resolve(x) != node {
 				continue
 			}
-			key := fmt.Sprintf("%p/%p", c, ia)
+			// (the site and its index variable as the program has them, not an activation's copy)
+			key := fmt.Sprintf("%p/%p", origInstr(c), origInstr(ia))
 			if sites[key] == nil {
-				sites[key] = &site{call: c, idx: ia.Index}
+				sites[key] = &site{call: origCall(c), idx: origInstr(ia).(*ssa.IndexAddr).Index}
 			}
 			_ = ia
 		}
